@@ -3,7 +3,7 @@ import numpy as np
 import scipy.linalg as sl
 
 from .. import casecheck
-from ..pool import contract, metadata_problem, core_arrays, carray
+from ..pool import contract, metadata_problem, core_arrays, carray, same_state
 
 ASSUME = [
     'no truncation active (threshold 0, rank cap 200); integer SLIM components from spec/Splitting.tla; dense reference = ordered product of scipy expm of the embedded local generators along the stage word emitted by the specification',
@@ -86,7 +86,7 @@ def replay(case):
         try:
             S, L, I, M = lib_args()
             sol = f(S, L, I, M, x0, h, ns, threshold=0, max_rank=200, normalize=0)
-            if not isinstance(sol, list) or len(sol) != ns + 1 or sol[0] is not x0:
+            if not isinstance(sol, list) or len(sol) != ns + 1 or not same_state(sol[0], x0):
                 out.append(('%s:length' % name, 'trajectory must contain the initial value and one state per step'))
                 continue
             P = step_matrix(word, h)
